@@ -265,7 +265,12 @@ Definition judge_arc (m : mat) (a : garc) : Z * Z :=
     let mc_ := mdot m c in
     let mgc := mdot (mabs m) (pabs c) in
     let oscale := 1 + n1 mgc + o_rx a in
-    let tolabs := tol20 * oscale in
+    (* the radii of the image come out of an eigen-decomposition of the conic's matrix, whose small eigenvalue (the long axis)
+       loses (rx/ry)^2 of the 2^-52 relative precision of binary64; the end-point parametrisation of an arc close to half
+       an ellipse turns a relative error e of a radius into a displacement of sqrt(e) of the centre.  So the deviation that
+       rounding alone explains is 2^-26 * rx/ry of the size, which exceeds 2^-20 for images thinner than 1:64. *)
+    let tolrel := let t := (1 # 67108864) * (o_rx a / o_ry a) in if Qle_bool tol20 t then t else tol20 in
+    let tolabs := tolrel * oscale in
     let p_end := pt_ok false m (g_e a) (o_e a) && pt_ok false m (g_s a) (o_s a) in
     let neg := negb (Qle_bool 0 (mdet m)) in
     let p_flags := Bool.eqb (o_sweep a) (xorb (g_sweep a) neg) &&
